@@ -16,6 +16,7 @@
          -> <result of call 1>;<result of call 2>;...   (requested parameters; generator threaded by the model)
     ghist <fix> <t> <k> <p> <mp> <seed> <ncalls> {F* <nacc> <id>*}^ncalls E
          -> <result d=<numbers drawn>>;...   (grammar path; accepted id sets probed from the real grammar)
+    (<fix> is a bit mask: 1 = F18 max-shift (in /repo), 2 = proposed F18c greedy all--Inf error)
     sample <fix> <pre> <t> <k> <p> <mp> <r> <n> {<id> <bits>}* E
          -> ok <id> kt=.. kp=.. km=.. c=.. | err:<class> ... | panic:<site> ...
 -/
@@ -103,7 +104,7 @@ def sampleSummary (o : Ops Float32) (fix pre : Bool) (P : Params Float32) (r : F
     (ts : List (Tok Float32)) : String :=
   if ts.isEmpty then "err:nologits" else
   if o.beq P.temp o.zero then
-    match greedy o ts with
+    match sampleCore o fix P r ts with
     | .ok t => s!"ok {t.id} c=greedy"
     | .error e => showErr e ++ " c=greedy"
   else
@@ -207,9 +208,9 @@ def handle (toks' : List String) : Option String :=
       let calls ← rep nc (listOf pF)
       let tbl ← pExp
       let o := f32Ops tbl
-      let P := newParams o t k p mp
+      let P := { newParams o t k p mp with greedyErr := fix / 2 % 2 != 0 }
       let toF : Nat → Float32 := fun n => Float32.ofNat n / Float32.ofNat 16777216
-      let rs := sampleHist o toF (fix != 0) P (pcgOfSeed seed) calls
+      let rs := sampleHist o toF (fix % 2 != 0) P (pcgOfSeed seed) calls
       pure (joinWith ";" (rs.map fun r => match r with
         | .ok id => s!"ok {id}"
         | .error e => showErr e))) rest
@@ -225,9 +226,9 @@ def handle (toks' : List String) : Option String :=
       let calls ← rep nc (do let l ← listOf pF; let a ← listOf nat; pure (l, a))
       let tbl ← pExp
       let o := f32Ops tbl
-      let P := newParams o t k p mp
+      let P := { newParams o t k p mp with greedyErr := fix / 2 % 2 != 0 }
       let toF : Nat → Float32 := fun n => Float32.ofNat n / Float32.ofNat 16777216
-      let rs := sampleHistG o toF (fix != 0) P (pcgOfSeed seed) calls
+      let rs := sampleHistG o toF (fix % 2 != 0) P (pcgOfSeed seed) calls
       pure (joinWith ";" (rs.map fun (r, d) => match r with
         | .ok id => s!"ok {id} d={d}"
         | .error e => showErr e ++ s!" d={d}"))) rest
@@ -242,7 +243,7 @@ def handle (toks' : List String) : Option String :=
       let r ← pF
       let ts ← pTokList
       let tbl ← pExp
-      pure (sampleSummary (f32Ops tbl) (fix != 0) (pre != 0) ⟨t, k, p, mp⟩ r ts)) rest
+      pure (sampleSummary (f32Ops tbl) (fix % 2 != 0) (pre != 0) ⟨t, k, p, mp, fix / 2 % 2 != 0⟩ r ts)) rest
   | _ => none
 
 end Oracle.C18
